@@ -312,7 +312,7 @@ def apply_op(ctx, c, x, model, name, pool, k, sig, what):
     elif name == 'clear':
         both(lambda: x.clear(), lambda m: m.clear(), 'clear')
     elif name == 'copy':
-        if c not in EXTRA:
+        if True:
             try:
                 y = C(x)
                 ok = type(y) is C and len(y.data) == len(model) and all(eq_arr(c, v, m, readout=True) for v, m in zip(y.data, model)) and y.data is not x.data
@@ -519,7 +519,7 @@ def run(ctx):
     else:
         maxlen['SE3'] = 3
     for c in CLASSES + EXTRA:
-        alphabet = [o for o in ops if not (c in EXTRA and o in ('copy',))]
+        alphabet = list(ops)
         for L in range(1, maxlen[c] + 1):
             for start in range(0, 5):
                 for seq in itertools.product(alphabet, repeat=L):
@@ -532,7 +532,7 @@ def run(ctx):
     # (c) random long histories
     for _ in range(ctx.scale(600, 20000)):
         c = (CLASSES + EXTRA)[rng.integers(len(CLASSES) + len(EXTRA))]
-        alphabet = [o for o in ops if not (c in EXTRA and o == 'copy')]
+        alphabet = list(ops)
         L = int(rng.integers(4, 61))
         seq = [alphabet[rng.integers(len(alphabet))] for _ in range(L)]
         pool = pools[c]
